@@ -111,7 +111,7 @@ ConvertToCurrent == \E c \in QCats : \E u \in { v \in Units : TypeOf[v] = TypeOf
                        Step(Call("ConvertToCurrent", [c |-> c, u |-> u, x |-> x]))
 ConvertScalarToCurrent == \E c \in QCats : \E u \in { v \in Units : TypeOf[v] = TypeOf[c] }, x \in Xs :
                        Step(Call("ConvertScalarToCurrent", [c |-> c, u |-> u, x |-> x]))
-Init == /\ TLCSet(2, 0) /\ order = <<>> /\ maps = EmptyM /\ current = NONE
+Init == /\ TLCSet(2, 1 + (EmitOffset % 65520)) /\ order = <<>> /\ maps = EmptyM /\ current = NONE
         /\ template = [set |-> FALSE, m |-> EmptyM] /\ log = <<>> /\ hist = <<>>
 Next == SetTemplate \/ AddUnitSystem \/ RemoveUnitSystem \/ SetCurrent \/ SetDefaultUnit \/ RemoveCategory
         \/ GetNewId \/ GetCategoryDefaultUnit \/ GetCurrentId \/ ConvertToCurrent \/ ConvertScalarToCurrent
@@ -125,8 +125,10 @@ EmitRec == PrintT(<<"TR", ToJson([h |-> hist', order |-> order', maps |-> MapsSe
                                  log |-> log'])>>)
 Emit == CASE EmitMode = "all"    -> EmitRec
           [] EmitMode = "last"   -> (Len(hist') = MaxCalls => EmitRec)      \* -simulate: one line per complete behaviour
-          [] EmitMode = "sample" -> /\ TLCSet(2, TLCGet(2) + 1)
-                                    /\ (TLCGet(2) % EmitEvery = EmitOffset => EmitRec)
+          [] EmitMode = "sample" -> /\ TLCSet(2, (TLCGet(2) * 17364) % 65521)     \* multiplicative congruential generator
+                                    /\ (TLCGet(2) % EmitEvery = 0 => EmitRec)
+          [] EmitMode = "part"   -> /\ TLCSet(2, TLCGet(2) + 1)                      \* partition: process EmitOffset of EmitEvery
+                                    /\ (TLCGet(2) % EmitEvery = EmitOffset % EmitEvery => EmitRec)
           [] OTHER -> TRUE
 
 \* ---- C17 -----------------------------------------------------------------------------------------------
